@@ -468,10 +468,13 @@ class YAMLPath:
 
             elif (
                     char == " "
+                    and collector_level < 1
                     and (demarc_count < 1
                          or demarc_stack[-1] not in ["'", '"'])
             ):
-                # Ignore unescaped, non-demarcated whitespace
+                # Ignore unescaped, non-demarcated whitespace; except within a
+                # Collector, whose expression is parsed again, later -- only
+                # then is it known which of its white-space is insignificant.
                 continue
 
             elif seeking_regex_delim:
